@@ -40,6 +40,10 @@ class Obj(object):
     def __init__(self, n):
         self.n = n
         self.items = [1, 2, 3]
+        self._prot = ("protected", n)  # a conventional "protected" attribute: single leading underscore
+
+    def _helper(self, k=2):
+        return ("helper", self.n, k)
 
     def method(self, k=1):
         return ("method", self.n, k)
@@ -60,8 +64,12 @@ class Obj(object):
         return "Obj(%r,%r)" % (self.n, self.items)
 
 
+Point = __import__("collections").namedtuple("Point", "x y")
+
+
 def pool():
     return [
+        Point(1, 2),
         True, False, 0, 1, -3, 7, 10 ** 20, 0.0, 1.5, -2.25, float("inf"), float("nan"), 1 + 2j,
         "", "abc", "12", "%s-%s", b"xy", (), (1, 2), [], [1, 2, 3], {}, {"a": 1, 1: "x"}, set(), {1, 2},
         frozenset({1}), None, Fraction(3, 4), Decimal("1.5"), range(3), Obj(2), bytearray(b"ab"),
@@ -208,7 +216,8 @@ def attr_names(v):
     if FUTURE_ATTRS is None:
         from more_executors._impl.futures.proxy import ProxyFuture
         FUTURE_ATTRS = set(dir(ProxyFuture))
-    return [n for n in dir(v) if not n.startswith("_") and n not in FUTURE_ATTRS
+    # (names with ONE leading underscore are ordinary attributes: namedtuple._fields, obj._protected; only __dunder__ lookups are special)
+    return [n for n in dir(v) if not n.startswith("__") and not n.startswith("_Obj") and n not in FUTURE_ATTRS
             and n not in ("clear", "pop", "popitem", "sort", "reverse", "append", "extend", "insert", "remove", "update",
                           "add", "discard", "setdefault", "copy", "as_integer_ratio", "hex", "fromhex", "fromkeys")]
 
@@ -389,7 +398,10 @@ def run_compositions(ctx):
         "map": lambda src: f_map(src, lambda x: x),
     }
     outer_kinds = {"nocancel": f_nocancel, "proxy": f_proxy, "map": lambda f: f_map(f, lambda x: x)}
-    hows = [("value", None), ("error", E1), ("error", AttrErr), ("error", KeyError), ("cancel", None)]
+    class Abort(BaseException):
+        """a failure that is not an Exception (as KeyboardInterrupt / SystemExit are), stored with set_exception()"""
+
+    hows = [("value", None), ("error", E1), ("error", AttrErr), ("error", KeyError), ("error", Abort), ("cancel", None)]
     for (iname, imk), (oname, omk), (how, exc_cls), when in itertools.product(sorted(inner_kinds.items()), sorted(outer_kinds.items()), hows, ("before", "after")):
         src = Future()
         e = exc_cls("boom") if exc_cls else None
